@@ -340,7 +340,7 @@ pub fn run(tier: Tier, seed: u64) -> i32 {
             s.push('€');
             names.push(s);
         }
-        for cp in [0x80u32, 0xFF, 0x100, 0x141, 0x7FF, 0x800, 0xFFFF, 0x1_0000, 0x10_FFFF] {
+        for cp in [0x7Fu32, 0x80, 0x81, 0x9F, 0xA0, 0xFF, 0x100, 0x141, 0x7FF, 0x800, 0xFFFF, 0x1_0000, 0x10_FFFF] {
             if let Some(c) = char::from_u32(cp) {
                 for l in 1..=17usize {
                     names.push(std::iter::repeat(c).take(l).collect());
@@ -352,12 +352,21 @@ pub fn run(tier: Tier, seed: u64) -> i32 {
         }
         let mut n_names = 0u64;
         for nm in &names {
+            // whatever a constructor accepts is then USED the way the server uses a name: viewed, printed, copied, registered
+            let use_it = |r: Result<NS, wow_srp::error::NormalizedStringError>| {
+                if let Ok(n) = r {
+                    let _ = n.as_ref().len();
+                    let _ = format!("{n}");
+                    let c = n.clone();
+                    let _ = SrpVerifier::from_username_and_password(c, ns("pw"));
+                }
+            };
             let rs: [(&str, Result<(), String>); 5] = [
-                ("new", catch(|| { let _ = NS::new(nm.as_str()); })),
-                ("from_str", catch(|| { let _ = NS::from_str(nm.as_str()); })),
-                ("from_string", catch(|| { let _ = NS::from_string(nm.clone()); })),
-                ("TryFrom<&str>", catch(|| { let _ = NS::try_from(nm.as_str()); })),
-                ("TryFrom<String>", catch(|| { let _ = NS::try_from(nm.clone()); })),
+                ("new", catch(|| use_it(NS::new(nm.as_str())))),
+                ("from_str", catch(|| use_it(NS::from_str(nm.as_str())))),
+                ("from_string", catch(|| use_it(NS::from_string(nm.clone())))),
+                ("TryFrom<&str>", catch(|| use_it(NS::try_from(nm.as_str())))),
+                ("TryFrom<String>", catch(|| use_it(NS::try_from(nm.clone())))),
             ];
             for (ctor, r) in rs {
                 n_names += 1;
